@@ -36,6 +36,7 @@ class VClock:
     def __init__(self, start: float = 1000.0):
         self.now = float(start)
         self.sleeps: list[float] = []
+        self.interrupt: BaseException | None = None  # armed by a scripted server: raised once by the next sleep()
 
     def monotonic(self) -> float:
         return self.now
@@ -45,6 +46,9 @@ class VClock:
 
     def sleep(self, x: float) -> None:
         self.sleeps.append(x)
+        if self.interrupt is not None:
+            exc, self.interrupt = self.interrupt, None
+            raise exc
         if x > 0:
             self.now += x
 
